@@ -322,8 +322,15 @@ def _merge(ancestor, our, their, allowed=None):
     unmergeable = list(diff(patch_ours_first, patch_theirs_first))
     if unmergeable:
         unmergeable_paths = []
-        for paths in patch(unmergeable, {}):
-            unmergeable_paths.append(posixpath.join(*paths))
+        try:
+            for paths in patch(unmergeable, {}):
+                unmergeable_paths.append(posixpath.join(*paths))
+        except KeyError:
+            # the conflicting diff removes or changes keys: it cannot be replayed
+            # on an empty dict, so take the keys from the diff entries themselves
+            for _, path, changes in unmergeable:
+                keys = [path[0]] if path else [key for key, _ in changes]
+                unmergeable_paths.extend(posixpath.join(*key) for key in keys)
         raise MergeError(
             "unable to auto-merge the following paths:\n" + "\n".join(unmergeable_paths)
         )
